@@ -200,6 +200,25 @@ reg("C14", "exploration",
 ALL = ["C%02d" % i for i in range(1, 21)]
 
 
+# wave 11 strengthenings (two operations in flight together; long or damaged histories)
+EXTRA3 = {
+    "C02": " 2- and 3-frame streams fed while a host DATA frame is outstanding (nothing may raise out of the receive callback or the loop).",
+    "C03": " Between the repeats of a suspended send the receiver is made to write an ACK / NAK of its own.",
+    "C04": " Third transmit context: reset request written, RSTACK outstanding; pairs also in one read.",
+    "C07": " Two calls of one command with different keyword arguments in flight together, for every command with arguments.",
+    "C08": " A frame with the pending command's sequence number read while its caller is cancelled / timed out but has not resumed; frame IDs seen as unknown by the legacy handler, then used after the negotiation (same object and another object).",
+    "C09": " A command issued by another coroutine between RST and RSTACK; the NCP restarting on its own while the second start-up of a socket path waits.",
+    "C11": " ACK and RSTACK read in one loop iteration with a host frame outstanding.",
+    "C12": " Scripted histories: an earlier request failing (busy on every attempt, refused, confirmed failed, never confirmed) before an ordinary one; set-up frames issued after their request was cancelled count as interleaving.",
+    "C13": " A unicast callback delivered at every suspension point of a concurrent settings read (load_network_info).",
+    "C14": " Two reads in flight together (second started at the first one's k-th command); an ordinary read after a read during which the NCP refused a key export.",
+    "C15": " Subscribe / unsubscribe of the same group in flight together, with mixed answers to the two writes.",
+    "C16": " A write after an earlier write on the same EZSP object during which the NCP could not report the setting; a write with another coroutine reading configuration values in keyword form.",
+    "C17": " Hand-over between two operations waiting for the same status (the first one has seen its event and waits for its response when the second registers).",
+    "C19": " Two feeds in flight together, both failing.",
+    "C20": " Calls made while an earlier plain call is executing on the owner's thread (real EventLoopThread).",
+}
+
 # wave 8 / wave 9 strengthenings
 EXTRA2 = {
     "C02": " Data fields longer than the 256-byte randomisation sequence; recovery (next valid frame accepted) after a buffer-full of garbage.",
@@ -226,7 +245,7 @@ def build() -> dict:
         if pid not in CHECKS:
             continue
         cat, tech, text, note, ref = CHECKS[pid]
-        text = text + EXTRA.get(pid, "") + EXTRA2.get(pid, "")
+        text = text + EXTRA.get(pid, "") + EXTRA2.get(pid, "") + EXTRA3.get(pid, "")
         checks.append({
             "property_id": pid,
             "quick_cmd": f"./check {pid} --tier quick",
